@@ -150,7 +150,8 @@ def inv(s, st, n_cust, multi, tag, D=None):
         conds = []
         for v in range(len(st.routes)):
             want = ref_arrivals(st, v, D)
-            conds += [a == w for a, w in zip(st.arrival_times[v], want)]
+            # 1e-9: with concrete coordinates the implementation adds floats where the reference adds exact rationals
+            conds += [AND(a - w <= 1e-9, w - a <= 1e-9) for a, w in zip(st.arrival_times[v], want)]
         s.check(AND(conds) if conds else True, tag + ".arrival_times_consistent_with_travel_waiting_service")
     return not bad
 
@@ -159,7 +160,7 @@ def snapshot(st):
     return ([list(r) for r in st.routes], [list(a) for a in st.arrival_times], set(st.unassigned), list(st.customers), list(st.vehicles))
 
 
-def h_vrp_op(s, op, n_cust, n_veh, multi, routes, unassigned, sync=None):
+def h_vrp_op(s, op, n_cust, n_veh, multi, routes, unassigned, sync=None, opkw=None):
     vrp = importlib.import_module("solvor.vrp")
     multi = {int(k): v for k, v in multi.items()}
     # sync_assignments is NOT constrained by the invariant (removal operators leave stale entries): arbitrary content in the pre-state
@@ -167,7 +168,7 @@ def h_vrp_op(s, op, n_cust, n_veh, multi, routes, unassigned, sync=None):
     before = snapshot(st)
     rng = SymRandom(s)
     fn = getattr(vrp, op)
-    post = fn(st, rng)
+    post = fn(st, rng, **(opkw or {}))  # opkw: the operator's own knob (degree / n_routes / k) away from its default
     after = snapshot(st)
     same = before[0] == after[0] and before[2] == after[2] and all(x is y for x, y in zip(before[3], after[3])) and \
         all(len(a) == len(b) and all(p is q for p, q in zip(a, b)) for a, b in zip(before[1], after[1]))
@@ -188,7 +189,7 @@ def h_vrp_objective(s, n_cust, n_veh, multi, routes, unassigned):
     w = {k: s.real("w_" + k, 0, None) for k in ("distance", "vehicle", "tw", "capacity", "sync", "unassigned")}
     got = vrp.vrp_objective(st, distance_weight=w["distance"], vehicle_weight=w["vehicle"], tw_penalty=w["tw"], capacity_penalty=w["capacity"],
                             sync_penalty=w["sync"], unassigned_penalty=w["unassigned"])
-    s.check(AND([a == b for v in range(len(st.routes)) for a, b in zip(st.arrival_times[v], ref_arrivals(st, v))] or [True]),
+    s.check(AND([AND(a - b <= 1e-9, b - a <= 1e-9) for v in range(len(st.routes)) for a, b in zip(st.arrival_times[v], ref_arrivals(st, v))] or [True]),
             "vrp.update_arrival_times_matches_documented_recurrence")
     want = documented_objective(st, multi, w)
     s.check(got == want, "vrp.objective_is_documented_weighted_sum")
@@ -382,6 +383,12 @@ def items(tier, rng):
                 out.append({"name": "vrp_stale_" + op, "harness": "h_vrp_op", "max_paths": 120 if q else 1200, "spread": rng.randrange(1 << 30),
                             "params": {"op": op, "n_cust": 3, "n_veh": 2, "multi": multi, "routes": routes, "unassigned": sorted(un),
                                        "sync": {"1": [0, 1]}}})
+        # operator knobs away from their defaults: removal degree (how many customers go), number of routes emptied, regret depth
+        if si % (3 if q else 1) == 1:
+            for op, opkw in (("random_removal", {"degree": 1.0}), ("worst_removal", {"degree": 0.6}), ("related_removal", {"degree": 1.0}),
+                             ("route_removal", {"n_routes": 2}), ("regret_insertion", {"k": 3}), ("regret_insertion", {"k": 1})):
+                out.append({"name": "vrp_knob_" + op, "harness": "h_vrp_op", "max_paths": 120 if q else 1200, "spread": rng.randrange(1 << 30),
+                            "params": {"op": op, "n_cust": 3, "n_veh": 2, "multi": multi, "routes": routes, "unassigned": sorted(un), "opkw": opkw}})
         if si % (4 if q else 1) == 0:
             out.append({"name": "vrp_objective", "harness": "h_vrp_objective",
                         "params": {"n_cust": 3, "n_veh": 2, "multi": multi, "routes": routes, "unassigned": sorted(un)}})
